@@ -1894,9 +1894,19 @@ impl NestedLoopJoinStream {
         }
 
         if active.pending_batches.is_empty() {
-            // No data at all — go directly to Done
             self.left_exhausted = true;
-            self.state = NLJState::Done;
+            if !self.left_buffered_in_one_pass && self.should_track_unmatched_right {
+                // The batch that tripped the memory limit was the last left batch:
+                // every left chunk has been joined already, but the right-side rows
+                // of Right/Full/RightSemi/RightAnti/RightMark are still only recorded
+                // in the global bitmaps. Drop the exhausted right stream so that
+                // EmitGlobalRightUnmatched opens a fresh replay pass.
+                self.right_data = None;
+                self.state = NLJState::EmitGlobalRightUnmatched;
+            } else {
+                // No data at all — go directly to Done
+                self.state = NLJState::Done;
+            }
             return ControlFlow::Continue(());
         }
 
